@@ -143,9 +143,9 @@ CLAIMS = {
     },
     "C12": {
         "level": "other",
-        "text": "Form.signature() - Form.__init__ with its integral sorting, domain and terminal numbering, every _ufl_signature_data_ method, compute_form_signature, canonicalize_metadata, and the operand ordering of the Sum/Product constructors (sorted_expr/cmp_expr) - is lifted on a family of forms whose meshes, function spaces, coefficients, constants, arguments, geometric quantities, literals, indices, labels, integrals and forms are instances of the repository's classes built by lifting their own constructors. Every incidental quantity is an explicit parameter of the lifted world: all counters (order-preserving renumberings across the 9->10 and 99->100 digit boundaries), the iteration order of every set built by the analysed code (insertion order, reverse, three element-keyed orders) and the salt of hash(str). The signature of each form must be identical in all worlds; a difference is reported with the first differing pre-hash data.",
+        "text": "Form.signature() - Form.__init__ with its integral sorting, domain and terminal numbering, every _ufl_signature_data_ method, compute_form_signature, canonicalize_metadata, and the operand ordering of the Sum/Product constructors (sorted_expr/cmp_expr) - is lifted on a family of forms whose meshes, function spaces, coefficients, constants, arguments, geometric quantities, literals, indices, labels, integrals and forms are instances of the repository's classes built by lifting their own constructors. Every incidental quantity is an explicit parameter of the lifted world: all counters (order-preserving renumberings across the 9->10 and 99->100 digit boundaries), the iteration order of every set built by the analysed code (insertion order, reverse, three element-keyed orders) and the salt of hash(str). The signature of each form must be identical in all worlds; a difference is reported with the first differing pre-hash data. Structural rule C12-order: in the whole package no set-valued local (set()/set displays/comprehensions/set algebra/set-returning functions, followed through tuple returns) is iterated into a sequence, an operator nesting or a string without passing a sorter or an order-insensitive reduction (this covers the expression constructors, e.g. the implicit-summation order of A[i,j,i,j], which the lifted signature family takes from reference constructors).",
         "note": "Finite family (counted terminals in commutative nodes, several non-integration meshes, free/fixed indices and a Zero with free indices, variables, several integrals with ids/metadata, extra-domain maps, arguments with parts). Traversal drivers modelled (C19); finite elements / cells are abstract objects identified by repr; hashlib is modelled by itself. " + TB,
-        "technique": "differential abstract interpretation of the signature pipeline over instances of the repository classes, with counters, set iteration order and string-hash salt as parameters of the abstract world",
+        "technique": "differential abstract interpretation of the signature pipeline over instances of the repository classes, with counters, set iteration order and string-hash salt as parameters of the abstract world; package-wide set-order dataflow rule on the AST (set-valued locals with return summaries -> order-sensitive sinks), 9 reviewed sites, positive control",
     },
     "C11": {
         "level": "other",
